@@ -521,5 +521,7 @@ Proof.
       destruct (Nat.eqb (length (from_signature sigres)) (length (@nil (list alt)))); [|apply from_signature_sound].
       destruct sigres; [constructor|]. cbn. apply from_signature_sound.
     + split; [discriminate|]. intros ls n E. inversion E; subst. apply Hfin. apply from_signature_sound.
-    + split; [discriminate|]. intros ls n E. inversion E; subst. intros i l r a Hl. destruct i; discriminate.
+    + split; [discriminate|]. intros ls n E. inversion E; subst.
+      destruct (fx_fallback fx); [apply Hfin; apply from_signature_sound|].
+      intros i l r a Hl. destruct i; discriminate.
 Qed.
